@@ -369,6 +369,13 @@ impl<F: Read + Seek> Package<F> {
                             table_name
                         );
                     }
+                    if !streamname::is_valid(&table_name, true) {
+                        invalid_data!(
+                            "Invalid table name in {:?} table: {:?}",
+                            TABLES_TABLE_NAME,
+                            table_name
+                        );
+                    }
                     names.insert(table_name);
                 }
             }
